@@ -230,8 +230,13 @@ def parseForwarder (cfg : List (Bytes × Bytes)) : Option Forwarder :=
   | none => none
   | some (es, ms) => some { entries := es, all := all, masks := ms }
 
-/-- is_proxy_trusted(): exact (ASCII case-insensitive) match on a configured key, else CIDR -/
-def isProxyTrusted (f : Forwarder) (ip : Bytes) : Bool :=
+/-- is_proxy_trusted(): exact (ASCII case-insensitive) match on a configured key, else CIDR.
+    `netFirst = true` is the argument order the property needs (and configfile-glue.c uses):
+    sock_addr_is_addr_eq_bits(network, candidate, bits).  `netFirst = false` is the call as the
+    pinned tree has it, sock_addr_is_addr_eq_bits(candidate, network, bits): `bits` is then read
+    relative to the candidate's family, and every IPv4-mapped IPv6 candidate matches every IPv4
+    network (kept to state the counterexample in Props/C03.lean). -/
+def isProxyTrustedOrd (netFirst : Bool) (f : Forwarder) (ip : Bytes) : Bool :=
   match f.entries.find? (fun e => eqIcase e.1 ip) with
   | some e => e.2
   | none =>
@@ -240,8 +245,10 @@ def isProxyTrusted (f : Forwarder) (ip : Bytes) : Bool :=
     else
       match ptonAny ip with
       | none => false
-      -- sock_addr_is_addr_eq_bits(&addr, &addrs[i].addr, addrs[i].bits)
-      | some a => f.masks.any fun m => SockAddr.addrEqBits a m.1 m.2
+      | some a => f.masks.any fun m =>
+          if netFirst then SockAddr.addrEqBits m.1 a m.2 else SockAddr.addrEqBits a m.1 m.2
+
+def isProxyTrusted (f : Forwarder) (ip : Bytes) : Bool := isProxyTrustedOrd true f ip
 
 /-- is_connection_trusted() -/
 def isConnectionTrusted (f : Forwarder) (peer : Bytes) : Bool :=
@@ -363,6 +370,8 @@ def groups : List Item → List (List Item)
 
 inductive ForVal where
   | bad                 -- 400: "[" without address
+  | junk                -- `for="["`: the scan for ']' steps in front of the value (length -1): the
+                        -- identifier is never trusted and never parses as an address
   | val (b : Bytes)     -- node identifier with quotes, brackets and port removed (may be empty)
 deriving Repr, DecidableEq
 
@@ -378,7 +387,8 @@ def forValue (s : Bytes) (v vlen0 : Nat) : ForVal :=
       let body := q.drop 1
       -- keep what is left of the right-most ']' (nothing if there is none)
       let inner := ((body.reverse.dropWhile (· ≠ 93)).drop 1).reverse
-      if inner.isEmpty then .bad else .val inner
+      if body.isEmpty then .junk
+      else if inner.isEmpty then .bad else .val inner
     else if q.head? ≠ some 95 && q.head? ≠ some slash && q.head? ≠ some 117 then
       .val (q.takeWhile (· ≠ colon))
     else .val q
@@ -392,6 +402,7 @@ def usable (x : Bytes) : Bool :=
 
 inductive WalkRes where
   | bad                            -- 400
+  | junk                           -- stopped at an identifier that cannot be an address
   | addr (a : Option Bytes)        -- most recent usable identifier (`ofor`), if any
 deriving Repr, DecidableEq
 
@@ -404,6 +415,7 @@ def fwdWalkGroups (f : Forwarder) (s : Bytes) : List (List Item) → Option Byte
     | some (.kv _ _ v vlen) =>
       match forValue s v vlen with
       | .bad => .bad
+      | .junk => .junk
       | .val x =>
         if x.isEmpty then fwdWalkGroups f s gs ofor
         else
@@ -439,6 +451,7 @@ def forwardedAddr (beforeFix : Bool) (parse : Bytes → Option SockAddr) (f : Fo
     else
       match (if beforeFix then fwdWalkBeforeFix f hdr items else fwdWalk f hdr items) with
       | .bad => .bad
+      | .junk => .unchanged
       | .addr none => .unchanged
       | .addr (some a) =>
         match setAddr parse a with
